@@ -1,29 +1,95 @@
-(* The full C08 property for every heap variant with both defect switches off, closed. *)
-From Coq Require Import ZArith List Bool.
+(* The C08 theorems about the eviction ORDER (equality with the reference LRU, S2), closed.
+   No assumption on the size function is needed for these (sizes may be zero or negative). *)
+From Coq Require Import ZArith List Bool Lia.
 Import ListNotations.
-From Mds Require Import Heapq.HeapqModel Cache.CacheSpec Cache.CacheModel Cache.CacheS2Proofs.
+From Mds Require Import Gen.CacheIdx Gen.HeapqIdx Heapq.HeapqModel Heapq.HeapqSpec Cache.CacheSpec Cache.CacheModel
+  Cache.CacheS2Proofs Cache.CacheHeapGuard.
 Local Open Scope Z_scope.
 
 Theorem refines_S2_sound_heap :
   forall (K V : Type) (keqb : K -> K -> bool),
     (forall a b, keqb a b = true <-> a = b) ->
   forall (kzero : K) (vzero : V) (sizeOf : V -> Z),
-    (forall v, 0 <= sizeOf v) ->
   forall (hv : variant), parent_halves hv = false -> pop_no_siftup hv = false ->
   forall (lim : Z) (ops : list (op K V)),
     0 < lim ->
     run_new K V keqb kzero vzero sizeOf hv lim ops = map ok_event (s2_run K V keqb vzero sizeOf lim [] ops).
 Proof.
-  intros K V keqb Hk kzero vzero sizeOf Hs hv H1 H2 lim ops Hl.
-  exact (refines_S2 K V keqb Hk kzero vzero sizeOf Hs lim Hl hv H1 H2 ops).
+  intros K V keqb Hk kzero vzero sizeOf hv H1 H2 lim ops Hl.
+  exact (refines_S2 K V keqb Hk kzero vzero sizeOf lim Hl hv ops (conj H1 H2)).
 Qed.
 
 Theorem refines_S2_repaired :
   forall (K V : Type) (keqb : K -> K -> bool),
     (forall a b, keqb a b = true <-> a = b) ->
   forall (kzero : K) (vzero : V) (sizeOf : V -> Z),
-    (forall v, 0 <= sizeOf v) ->
   forall (lim : Z) (ops : list (op K V)),
     0 < lim ->
     run_new K V keqb kzero vzero sizeOf repaired lim ops = map ok_event (s2_run K V keqb vzero sizeOf lim [] ops).
 Proof. intros. apply refines_S2_sound_heap; auto. Qed.
+
+(* the code as it is (and any heap whose pop never sifts up): every history none of whose calls
+   starts a heapq.Remove that needs a sift-up *)
+Theorem refines_S2_no_trigger :
+  forall (K V : Type) (keqb : K -> K -> bool),
+    (forall a b, keqb a b = true <-> a = b) ->
+  forall (kzero : K) (vzero : V) (sizeOf : V -> Z),
+  forall (hv : variant), pop_no_siftup hv = true ->
+  forall (lim : Z) (ops : list (op K V)),
+    0 < lim ->
+    run_new_safe K V keqb kzero vzero sizeOf hv lim ops = true ->
+    run_new K V keqb kzero vzero sizeOf hv lim ops = map ok_event (s2_run K V keqb vzero sizeOf lim [] ops).
+Proof.
+  intros K V keqb Hk kzero vzero sizeOf hv Hv lim ops Hl Hs.
+  exact (refines_S2_safe K V keqb Hk kzero vzero sizeOf lim Hl hv ops Hv Hs).
+Qed.
+
+(* ... in particular every history that is [settled], a condition on the history and the reference alone *)
+Theorem refines_S2_settled_history :
+  forall (K V : Type) (keqb : K -> K -> bool),
+    (forall a b, keqb a b = true <-> a = b) ->
+  forall (kzero : K) (vzero : V) (sizeOf : V -> Z),
+  forall (hv : variant), pop_no_siftup hv = true ->
+  forall (lim : Z) (ops : list (op K V)),
+    0 < lim ->
+    settled K V keqb vzero sizeOf lim true [] ops = true ->
+    run_new K V keqb kzero vzero sizeOf hv lim ops = map ok_event (s2_run K V keqb vzero sizeOf lim [] ops).
+Proof.
+  intros K V keqb Hk kzero vzero sizeOf hv Hv lim ops Hl Hs.
+  exact (refines_S2_settled K V keqb Hk kzero vzero sizeOf lim Hl hv ops Hv Hs).
+Qed.
+
+(* the trigger condition is exact for "this removal keeps the heap a heap": on a valid heap of LRU
+   entries, a removal at an offset where [rm_safe] is false leaves the moved entry strictly below
+   (older than) its parent *)
+Theorem trigger_breaks_heap :
+  forall (K V : Type) (hv : variant), pop_no_siftup hv = true ->
+  forall (d d' : list (prio K V)) (pos : Z) (m : moves (prio K V)) (out : prio K V),
+    heap_ok (prio K V) (compare_prio K V) d -> 0 <= pos < len d -> rm_safe K V d pos = false ->
+    pop (prio K V) hv (compare_prio K V) d pos = Ok (d', m, out) ->
+    exists moved par, get d' ((pos - 1) / 2) = Some par /\ get d' pos = Some moved /\
+                      lastAccess moved < lastAccess par /\ child ((pos - 1) / 2) pos.
+Proof.
+  intros K V hv Hv d d' pos m out Hh Hr Hs HP.
+  assert (Hn : ~ no_siftup_needed (prio K V) (compare_prio K V) d pos).
+  { intro N. unfold rm_safe in Hs. destruct N as [->|[N|(last & par & Hl & Hp & Hle)]].
+    - discriminate.
+    - apply Z.leb_le in N. rewrite N in Hs. rewrite orb_true_r in Hs. discriminate.
+    - rewrite Hl, Hp in Hs. apply (cmpp_le K V) in Hle. apply Z.leb_le in Hle. rewrite Hle in Hs.
+      rewrite orb_true_r in Hs. discriminate. }
+  destruct (pop_breaks_order (prio K V) hv (compare_prio K V) (cmpp_tp K V) d pos d' m out Hv Hh Hr Hn HP)
+    as (last & par & A & B & C & D).
+  exists last, par. split; [exact A|]. split; [exact B|]. split; [|exact D].
+  destruct (Z_lt_dec (lastAccess last) (lastAccess par)) as [|N]; [assumption|exfalso].
+  assert (compare_prio K V par last <= 0) by (apply (cmpp_le K V); lia).
+  pose proof (HeapqArray.cmp_flip_lt (prio K V) (compare_prio K V) (cmpp_tp K V) last par). lia.
+Qed.
+
+(* New's documented panic *)
+Theorem new_bad_limit_panics :
+  forall (K V : Type) (keqb : K -> K -> bool) (kzero : K) (vzero : V) (sizeOf : V -> Z) (hv : variant)
+         (lim : Z) (ops : list (op K V)),
+    lim <= 0 -> run_new K V keqb kzero vzero sizeOf hv lim ops = [EPanic PBadLimit].
+Proof.
+  intros. unfold run_new, cache_new, new_bad_limit. destruct (Z.leb_spec lim 0); [reflexivity|lia].
+Qed.
